@@ -17,6 +17,7 @@ type retSite struct {
 	st   *State
 	blk  int
 	pos  token.Pos
+	cut  int // length of the script when the return was reached
 }
 
 // frame is the per-activation data of a symbolically executed function.
@@ -74,6 +75,13 @@ func (g *Gen) posStr(p token.Pos) string {
 func (f *frame) oblig(kind, name, pc, goal, clause string, pos token.Pos, props []string) *Oblig {
 	g := f.g
 	o := &Oblig{Name: f.prefix + name, Kind: kind, PC: pc, Goal: goal, Clause: clause, Fn: funcKey(g.fn), Pos: g.posStr(pos), Script: g.s, Props: props}
+	if g.postStart > 0 {
+		// an obligation of a return site: the script up to that return plus what the post-state
+		// translation emitted
+		o.Ranges = [][2]int{{0, g.retCut}, {g.postStart, len(g.s.lines)}}
+	} else {
+		o.Ranges = [][2]int{{0, len(g.s.lines)}}
+	}
 	g.obs = append(g.obs, o)
 	return o
 }
@@ -493,7 +501,7 @@ func (f *frame) block(b *ssa.BasicBlock, pc string, st *State, addEdge func(from
 			for _, r := range i.Results {
 				rs = append(rs, f.val(r))
 			}
-			f.rets = append(f.rets, retSite{pc, rs, st, b.Index, i.Pos()})
+			f.rets = append(f.rets, retSite{pc, rs, st, b.Index, i.Pos(), len(g.s.lines)})
 			return
 		case *ssa.Panic:
 			f.panicOb("explicit", pc, "false", i.Pos(), "explicit panic is unreachable")
